@@ -7,6 +7,8 @@ import (
 	"encoding/json"
 	"os"
 	"sync"
+
+	"github.com/oxia-db/oxia/proto"
 )
 
 // Event trace for the external verification harness: one JSON line per event, written when the
@@ -46,4 +48,12 @@ func verifEmit(inst any, ev string, kv ...any) {
 	b, _ := json.Marshal(m)
 	_, _ = verifTraceW.Write(append(b, '\n'))
 	_ = verifTraceW.Flush()
+}
+
+// verifChunkTerm is the term a snapshot stream was sent in (-1: the stream carried no chunk)
+func verifChunkTerm(c *proto.SnapshotChunk) int64 {
+	if c == nil {
+		return -1
+	}
+	return c.Term
 }
